@@ -108,7 +108,11 @@ class SimNet(object):
             if r.get("method") not in (None, methname):
                 continue
             r["seen"] += 1
-            if r["seen"] == r.get("nth", 1):
+            if r.get("every"):
+                # a persistently broken server: every matching call from the nth on
+                if r["seen"] >= r.get("nth", 1):
+                    out.append(r)
+            elif r["seen"] == r.get("nth", 1):
                 r["done"] = True
                 out.append(r)
         return out
